@@ -86,7 +86,9 @@ def run_unit(u, tier, seed, canary):
     rl = getattr(u, "rlimit", 30)
     cmd, out, err, rc, wall = V.run_verus(path, rlimit=rl, timeout=getattr(u, "timeout", 900),
                                           multiple_errors=(200 if canary else 20),
-                                          seed=(int(os.environ["VERIF_Z3_SEED"]) if os.environ.get("VERIF_Z3_SEED") else (seed if tier == "thorough" and seed else None)))
+                                          # the canary run (assertions that MUST fail) always uses z3's default seed: a failing proof explores
+                                          # up to the resource limit per assertion and may take far longer under another seed
+                                          seed=(None if canary else int(os.environ["VERIF_Z3_SEED"]) if os.environ.get("VERIF_Z3_SEED") else (seed if tier == "thorough" and seed else None)))
     res = V.classify(u, spans, out, err, rc, wall, cmd)
     res.path, res.text = path, text
     return res
